@@ -279,3 +279,91 @@ pub fn hyrax(cfg: &Cfg) -> Verdict {
         _ => Verdict::Hold,
     }
 }
+
+/// KZG10's inherent API: hiding commit without an RNG must fail; the blinding identity holds for the
+/// direct commit as well.
+pub fn kzg10_direct(h: usize, seed: u64) -> Verdict {
+    use crate::engine::grp::ToyPairing;
+    use ark_poly_commit::kzg10::{Powers, KZG10};
+    use ark_std::rand::{rngs::StdRng, SeedableRng};
+    type K = KZG10<ToyPairing, UP>;
+    let rng = &mut StdRng::seed_from_u64(seed + 3);
+    let pp = match K::setup(4, false, rng) {
+        Ok(p) => p,
+        Err(e) => return Verdict::viol("setup-err", format!("{:?}", e)),
+    };
+    let powers = Powers { powers_of_g: pp.powers_of_g[..=4].to_vec().into(), powers_of_gamma_g: (0..=h + 1).map(|i| pp.powers_of_gamma_g[&i]).collect::<Vec<_>>().into() };
+    let c: Vec<SF> = (0..3).map(|j| crate::engine::explore::sym(&format!("c{}", j))).collect();
+    let p = UP::from_coefficients_vec(c);
+    match catch(|| K::commit(&powers, &p, Some(h), None)) {
+        Ok(Ok(_)) => return Verdict::viol("no-rng-accepted", "KZG10::commit with a hiding bound and no RNG returned a commitment"),
+        _ => {}
+    }
+    crate::engine::sf::RNG_NONZERO.with(|c| c.set(true));
+    let (ch, r) = match with_sym_rng(true, || K::commit(&powers, &p, Some(h), Some(rng))) {
+        Ok(x) => x,
+        Err(e) => return Verdict::viol("commit-err", format!("{:?}", e)),
+    };
+    let before = rng_draws();
+    let (c0, r0) = match K::commit(&powers, &p, None, None) {
+        Ok(x) => x,
+        Err(e) => return Verdict::viol("commit-err", format!("{:?}", e)),
+    };
+    if rng_draws() != before || r0.is_hiding() {
+        return Verdict::viol("rng-used-without-hiding", "a non-hiding KZG10 commitment drew randomness or returned hiding state");
+    }
+    let bl = r.blinding_polynomial.coeffs().to_vec();
+    if bl.len() < h + 2 {
+        return Verdict::viol("blinding-too-short", format!("blinding polynomial has {} coefficients for hiding bound {}", bl.len(), h));
+    }
+    if let Err(v) = fresh_distinct(&bl, "kzg10 blinding polynomial") {
+        return v;
+    }
+    let mut acc = SF::zero();
+    for (i, b) in bl.iter().enumerate() {
+        acc += *b * powers.powers_of_gamma_g[i].0;
+    }
+    if ch.0 .0 - c0.0 .0 != acc {
+        return Verdict::viol("blinding-term", "KZG10 hiding commitment != non-hiding commitment + <blinding, gamma powers>");
+    }
+    Verdict::Hold
+}
+
+/// Hyrax: every polynomial opened in one call gets its own fresh masks: the auxiliary commitments
+/// com_d / com_b and the responses z_d / z_b of different proofs depend on disjoint, non-empty sets
+/// of RNG draws.
+pub fn hyrax_open_masks(cfg: &Cfg) -> Verdict {
+    let mut w = match build::<Hyrax>(cfg) {
+        Ok(w) => w,
+        Err(v) => return v,
+    };
+    let sp0 = sponge(cfg, 1);
+    let mut sp_p = sp0.clone();
+    let idx: Vec<usize> = (0..w.lps.len()).collect();
+    let proofs = match w.open(&idx, 0, &mut sp_p) {
+        Ok(p) => p,
+        Err(e) => return Verdict::viol(&format!("open-err:{}", e), e.clone()),
+    };
+    if proofs.len() != idx.len() {
+        return Verdict::viol("shape", "one proof per polynomial expected");
+    }
+    let rngs = |x: SF| -> std::collections::BTreeSet<u32> { term_vars(x).into_iter().filter(|(_, k)| *k == 2).map(|(v, _)| v).collect() };
+    // draws made by commit (row randomness) are shared knowledge of the state; masks must add NEW draws
+    let commit_draws: std::collections::BTreeSet<u32> = w.states.iter().flat_map(|s| s.verif_parts().0.iter().flat_map(|r| rngs(*r)).collect::<Vec<_>>()).collect();
+    let mut seen: std::collections::BTreeSet<u32> = Default::default();
+    for (i, p) in proofs.iter().enumerate() {
+        for (name, x) in [("com_d", p.com_d.0), ("com_b", p.com_b.0), ("com_eval", p.com_eval.0)] {
+            let fresh: std::collections::BTreeSet<u32> = rngs(x).difference(&commit_draws).copied().collect();
+            if fresh.is_empty() {
+                return Verdict::viol("mask-missing", format!("proof {}: {} carries no fresh randomness", i, name));
+            }
+            if name == "com_d" {
+                if fresh.iter().any(|v| seen.contains(v)) {
+                    return Verdict::viol("mask-shared", format!("proof {}: the mask commitment com_d reuses RNG draws of an earlier proof in the same opening", i));
+                }
+                seen.extend(fresh.iter().copied());
+            }
+        }
+    }
+    Verdict::Hold
+}
